@@ -198,7 +198,7 @@ func verifC03Sys(id string, seed int64) *verifSys {
 			m.U--
 			m.NSend[e.I]--
 			k := len(m.M)
-			lens := []int{14, 250, 300}
+			lens := []int{14, 250, 4300} // the longest spans more than 256 cipher blocks
 			// the text's own content must not matter: some markers start like OTR messages (query, error, encoded)
 			pre := []string{"", "?OTRv23? ", "?OTR Error: ", "?OTR:AAMD", "?OTR? "}[(k+len(id))%5]
 			t := []byte(fmt.Sprintf("%s<<MARK-%c-%02d>>", pre, 'A'+e.I, k))
@@ -260,6 +260,9 @@ func verifC03Sys(id string, seed int64) *verifSys {
 			if info.OK {
 				m.Opened++
 				opened = append(opened, info.Plain)
+				if !info.CTROK {
+					bad("cipher-is-not-aes-ctr", "a data message of %s (%d bytes of ciphertext) does not decrypt to the same text under the standard library's AES in counter mode: the key stream is not the specification's, a text enciphered with it is not protected as required", p.Name, len(info.Cipher))
+				}
 				if l := m.Last[e.I]; l.Set && l.Stream == info.Stream {
 					bad("key-stream-reused", "%s enciphered two messages under the same AES key and counter (key ids %d/%d, counter %d): the xor of the two ciphertexts is the xor of the plaintexts", p.Name, info.SenderKeyID, info.RecipientKeyID, info.Ctr)
 				}
@@ -307,7 +310,7 @@ func init() {
 		Level: "model_checking",
 		Build: verifC03Sys,
 		Run: func(r *verifReport) {
-			r.Rule = "explicit-state exploration of lifecycle histories (Send of fresh unmistakable markers of length 14/250/300, some of them beginning like an OTR query, error report or encoded message, End, query, injected error report, SMP start/answer, extra-key request, clock tick, every FIFO delivery order, within an event budget) under policy sets covering every combination of {requireEncryption, sendWhitespaceTag, whitespaceStartAKE, errorStartAKE} on the sender, with and without fragmentation; a wire monitor inspects EVERY message returned by EVERY call: each marker is searched raw, inside the base64 armour and across reassembled fragments, and every data message is opened with the session keys; a marker given to Send while encrypted / finished / under required encryption must never be readable, a finished-state or plaintext marker must never be emitted encrypted either, a queued marker may only leave inside data messages of a later session"
+			r.Rule = "explicit-state exploration of lifecycle histories (Send of fresh unmistakable markers of length 14/250/4300, some of them beginning like an OTR query, error report or encoded message, End, query, injected error report, SMP start/answer, extra-key request, clock tick, every FIFO delivery order, within an event budget) under policy sets covering every combination of {requireEncryption, sendWhitespaceTag, whitespaceStartAKE, errorStartAKE} on the sender, with and without fragmentation; a wire monitor inspects EVERY message returned by EVERY call: each marker is searched raw, inside the base64 armour and across reassembled fragments, and every data message is opened with the session keys; a marker given to Send while encrypted / finished / under required encryption must never be readable, a finished-state or plaintext marker must never be emitted encrypted either, a queued marker may only leave inside data messages of a later session"
 			r.Assumptions = []string{"data messages are opened with package-internal key material of the sender", "marker texts are the only user texts in the world"}
 			var ids []string
 			if r.Tier == "quick" {
